@@ -161,7 +161,10 @@ def run(res, tier, seed):
         samples = []
         for p in range(W):
             samples += [300, 310, 400 + p % 500, 350 + p % 400, 360 + p % 380]
-        lines = l1b.default_lines(fmt, n, start, numbers=lns, counts=samples, switch=[0] * n)
+        # six flagged lines (no earth location) next to the sampled middle line: blanked themselves, their telemetry is valid and used
+        noloc = (1 << 27) if l1b.FMT[fmt]["family"] == "klm" else (1 << 26)
+        lines = l1b.default_lines(fmt, n, start, numbers=lns, counts=samples, switch=[0] * n,
+                                  qual=[noloc if n // 2 + 3 <= i < n // 2 + 9 else 0 for i in range(n)])
         for i, l in enumerate(lines):
             a, b_ = divmod(prt3[i], 3)
             l["prt"] = [a + (1 if b_ > 0 else 0), a + (1 if b_ > 1 else 0), a]
